@@ -256,8 +256,8 @@ typedef struct {
     char log[2048];
 } conn_t;
 
-static void clog(conn_t *k, const char *fmt, ...) __attribute__((format(printf, 2, 3)));
-static void clog(conn_t *k, const char *fmt, ...)
+static void klog(conn_t *k, const char *fmt, ...) __attribute__((format(printf, 2, 3)));
+static void klog(conn_t *k, const char *fmt, ...)
 {
     va_list ap;
     size_t l = strlen(k->log);
@@ -287,12 +287,12 @@ static void info_cb(const SSL *s, int where, int ret)
     if (where & SSL_CB_READ)
     {
         if (!((ret >> 8) == 1 && (ret & 0xff) == 0)) k->o_alert_recv = ret;
-        clog(k, "  openssl: read alert %s/%s\n", SSL_alert_type_string_long(ret), SSL_alert_desc_string_long(ret));
+        klog(k, "  openssl: read alert %s/%s\n", SSL_alert_type_string_long(ret), SSL_alert_desc_string_long(ret));
     }
     else
     {
         if (!((ret >> 8) == 1 && (ret & 0xff) == 0)) k->o_alert_sent = ret;
-        clog(k, "  openssl: wrote alert %s/%s\n", SSL_alert_type_string_long(ret), SSL_alert_desc_string_long(ret));
+        klog(k, "  openssl: wrote alert %s/%s\n", SSL_alert_type_string_long(ret), SSL_alert_desc_string_long(ret));
     }
 }
 
@@ -719,7 +719,7 @@ static int m_flush(conn_t *k)
         {
             if (n < 0)
             {
-                clog(k, "  matrix: GetOutdata error %d\n", n);
+                klog(k, "  matrix: GetOutdata error %d\n", n);
                 if (!k->m_err) k->m_err = n;
             }
             break;
@@ -756,7 +756,7 @@ static int m_flush(conn_t *k)
         if (rc == MATRIXSSL_HANDSHAKE_COMPLETE)
         {
             k->m_complete = 1;
-            clog(k, "  matrix: handshake complete (after send)\n");
+            klog(k, "  matrix: handshake complete (after send)\n");
         }
         else if (rc == MATRIXSSL_REQUEST_CLOSE)
         {
@@ -764,7 +764,7 @@ static int m_flush(conn_t *k)
         }
         else if (rc < 0)
         {
-            clog(k, "  matrix: SentData error %d\n", rc);
+            klog(k, "  matrix: SentData error %d\n", rc);
             if (!k->m_err) k->m_err = rc;
         }
         if (k->is_dtls)
@@ -817,7 +817,7 @@ static int m_feed(conn_t *k, const unsigned char *p, int len)
             if (rc == MATRIXSSL_RECEIVED_ALERT)
             {
                 int lvl = ptlen >= 1 ? pt[0] : -1, desc = ptlen >= 2 ? pt[1] : -1;
-                clog(k, "  matrix: received alert %d/%s\n", lvl, alert_name(desc));
+                klog(k, "  matrix: received alert %d/%s\n", lvl, alert_name(desc));
                 if (desc == SSL_ALERT_CLOSE_NOTIFY)
                 {
                     k->m_closed = 1;
@@ -846,7 +846,7 @@ static int m_feed(conn_t *k, const unsigned char *p, int len)
         if (rc == MATRIXSSL_HANDSHAKE_COMPLETE)
         {
             k->m_complete = 1;
-            clog(k, "  matrix: handshake complete\n");
+            klog(k, "  matrix: handshake complete\n");
         }
         else if (rc == MATRIXSSL_REQUEST_CLOSE)
         {
@@ -855,7 +855,7 @@ static int m_feed(conn_t *k, const unsigned char *p, int len)
         else if (rc < 0)
         {
             if (!k->m_err) k->m_err = rc;
-            clog(k, "  matrix: ReceivedData error %d\n", rc);
+            klog(k, "  matrix: ReceivedData error %d\n", rc);
             m_flush(k);
             return rc;
         }
@@ -880,7 +880,7 @@ static void o_step(conn_t *k)
         if (rc == 1)
         {
             k->o_done = 1;
-            clog(k, "  openssl: handshake complete\n");
+            klog(k, "  openssl: handshake complete\n");
         }
         else
         {
@@ -890,7 +890,7 @@ static void o_step(conn_t *k)
                 k->o_fatal = 1;
                 k->o_err = ERR_peek_last_error();
                 ERR_error_string_n(k->o_err, k->o_errstr, sizeof(k->o_errstr));
-                clog(k, "  openssl: handshake error %d: %s\n", e, k->o_errstr);
+                klog(k, "  openssl: handshake error %d: %s\n", e, k->o_errstr);
                 if (verbose) ERR_print_errors_fp(stderr);
             }
         }
@@ -919,7 +919,7 @@ static void o_step(conn_t *k)
                     k->o_fatal = 1;
                     k->o_err = ERR_peek_last_error();
                     ERR_error_string_n(k->o_err, k->o_errstr, sizeof(k->o_errstr));
-                    clog(k, "  openssl: read error %d: %s\n", e, k->o_errstr);
+                    klog(k, "  openssl: read error %d: %s\n", e, k->o_errstr);
                     if (verbose) ERR_print_errors_fp(stderr);
                 }
                 break;
@@ -1077,7 +1077,7 @@ static void run_conn(conn_t *k, int conn, cres_t *r)
     k->m_cr_nsig = k->m_cr_seen = 0;
     memset(&k->q, 0, sizeof(k->q));
 
-    clog(k, " connection %d (%s)\n", conn, conn ? mname[c->resm] : "full handshake");
+    klog(k, " connection %d (%s)\n", conn, conn ? mname[c->resm] : "full handshake");
     k->o = SSL_new(k->octx);
     if (!k->o)
     {
@@ -1147,10 +1147,10 @@ static void run_conn(conn_t *k, int conn, cres_t *r)
             set_res(r, "wrong-suite", "MatrixSSL reports 0x%04x", mc);
             return;
         }
-        if (c->ver != V_TLS13 && SSL_get_extms_support(k->o) != !c->noems)
+        if (c->ver != V_TLS13 && (int) SSL_get_extms_support(k->o) != !c->noems)
         {
             set_res(r, "extended-master-secret-mismatch", "SSL_get_extms_support=%d although OpenSSL %s it and MatrixSSL offers/accepts it by default",
-                SSL_get_extms_support(k->o), c->noems ? "did not negotiate" : "offered/accepted");
+                (int) SSL_get_extms_support(k->o), c->noems ? "did not negotiate" : "offered/accepted");
             return;
         }
         if (want_resumed)
